@@ -185,6 +185,14 @@ func DiscardedShootSample() *Sample {
 	waitFor = left''')],
  'h05-harmless-slow-local-after-wait': [(I,'''			if !i.discardOverflow || !waiter.IsSlowDown(ctx) {''','''			slow := waiter.IsSlowDown(ctx)
 			if !i.discardOverflow || !slow {''')],
+ 'h06-harmless-pooled-discard-sample': [(S,'''	sample := &Sample{
+		timeStamp: time.Now(),
+		tags:      DiscardedShootTag,
+	}
+	sample.SetUserNet(DiscardedShootCodeError)
+''','''	sample := Acquire(DiscardedShootTag)
+	sample.SetUserNet(DiscardedShootCodeError)
+''')],
 })
 PK={W:'./core/coreutil/...',I:'./core/engine/...',C:'./cli/...',S:'./core/aggregator/...',E:'./core/engine/...'}
 def main():
